@@ -118,6 +118,19 @@ CLAIMED = {
             'Reference rotation formula and margins in the harness; ambiguity '
             'bands of vf/ref/geometry.py.',
             'DESIGN.md section 5, C15'),
+    'C08': ('exploration',
+            'Hypothesis property tests: per-node algebra of contains / centre '
+            'mask (dict-of-pixels placement) / box for nested compounds; '
+            'commutation with to_sky, to_pixel, rotate; annulus vs '
+            'independently built inner/outer shapes',
+            'Random search over clustered operand pairs and nested expressions '
+            'to depth 3 built through operators, methods and the constructor, '
+            'with include flags on operands and compounds; the WCS family for '
+            'the commutation relations.',
+            'The library\'s own operand answers/masks are the inputs of the '
+            'algebraic oracle (operands are checked by C01/C02); reference '
+            'margins give a second opinion on membership.',
+            'DESIGN.md section 5, C08'),
 }
 
 PENDING_REASON = ('check designed (DESIGN.md section 5) but not yet built and '
